@@ -669,7 +669,22 @@ class Controller:
             )
 
         if not advertiser:
-            # This is not send to us.
+            # This is not sent to us, unless the address is one of ours and we are no
+            # longer advertising with it (another central was faster, or the host
+            # stopped advertising). The initiator already considers itself connected:
+            # tell it that the connection was not established.
+            own_addresses = [self.public_address, self.random_address] + [
+                advertising_set.address
+                for advertising_set in self.advertising_sets.values()
+            ]
+            if self.link and packet.advertiser_address in own_addresses:
+                self.link.send_ll_control_pdu(
+                    sender_address=packet.advertiser_address,
+                    receiver_address=packet.initiator_address,
+                    packet=ll.TerminateInd(
+                        hci.HCI_ErrorCode.CONNECTION_FAILED_TO_BE_ESTABLISHED_ERROR
+                    ),
+                )
             return
 
         # Allocate (or reuse) a connection handle
